@@ -18,7 +18,7 @@ Record snap := {
   sn_wills : list (bytes * Z * msg);
   sn_retained : list (bytes * bytes) }.
 
-Record obs := { b_op : op; b_outs : list out; b_pre : snap; b_post : snap }.
+Record obs := { b_op : op; b_outs : list out; b_hooks : list hev; b_pre : snap; b_post : snap }.
 
 (* projection of the model state *)
 Definition sclient_of (id : bytes) (o : cobj) : sclient :=
@@ -43,7 +43,7 @@ Definition snap_of (s : state) : snap :=
      sn_retained := st_retained s |}.
 
 Definition obs_of (t : tstep) : obs :=
-  {| b_op := t_op t; b_outs := t_outs t; b_pre := snap_of (t_pre t); b_post := snap_of (t_post t) |}.
+  {| b_op := t_op t; b_outs := t_outs t; b_hooks := t_hooks t; b_pre := snap_of (t_pre t); b_post := snap_of (t_post t) |}.
 
 (* ---------- helpers ---------- *)
 Fixpoint find_client (id : bytes) (l : list sclient) : option sclient :=
@@ -96,6 +96,7 @@ Definition V14_keeps := 1402.
 Definition V14_clean := 1403.
 Definition V14_old_after := 1404.      (* packet on a connection after the broker closed it *)
 Definition V14_old_takeover := 1405.   (* taken-over connection: not exactly DISCONNECT 0x8E then close *)
+Definition V14_clean_hooks := 1406.    (* clean start: an in-flight record / subscription of the discarded session not reported dropped / unsubscribed *)
 Definition V15_when := 1501.           (* session discarded although connected / before its expiry elapsed *)
 Definition V15_late0 := 1502.          (* session with expiry 0 / MQTT 3 clean not discarded at disconnect *)
 Definition V15_late := 1503.           (* expired session survives a housekeeping tick *)
@@ -219,6 +220,16 @@ Definition m14_step (i : nat) (m : m14) (b : obs) : m14 * list viol :=
                | None => [mkv V14_clean i c id]
                end
              else []) ++
+            (* the discarded session is reported to the hooks (so that a store can forget it): every
+               unacknowledged message dropped, every subscription unsubscribed *)
+            (match pre with
+             | Some r =>
+                 if cp_clean p || ((sc_ver r <? 5) && sc_clean r) then
+                   let dropped := flat_map (fun h => match h with HDropped i pl => if beq_bytes i id then [pl] else [] | _ => [] end) (b_hooks b) in
+                   let unsub := flat_map (fun h => match h with HUnsub i f => if beq_bytes i id then [f] else [] | _ => [] end) (b_hooks b) in
+                   if msubB (sc_infl r) dropped && subB (sc_subs r) unsub then [] else [mkv V14_clean_hooks i c id]
+                 else []
+             | None => [] end) ++
             (* the connection that held the identifier: DISCONNECT 0x8E (MQTT 5) and nothing else, then closed *)
             (match pre with
              | Some r =>
